@@ -32,6 +32,10 @@ void UncompressedFile::read(char * s, std::streamsize n) {
     /* mutex lock */
     std::unique_lock<std::mutex> lock(m_mutex);
 
+    /* tell the writers how far this read needs the data, so that a read larger than the buffer is still served */
+    m_readDemand = n + m_tellg;
+    tellgChanged.notify_all();
+
     /* wait until there is sufficient data */
     tellpChanged.wait(lock, [&] {
         return
@@ -39,6 +43,7 @@ void UncompressedFile::read(char * s, std::streamsize n) {
         (n + m_tellg <= m_tellp) ||
         (n + m_tellg > m_fileSize);
     });
+    m_readDemand = 0;
 
     /* handle read behind eof */
     if (n + m_tellg > m_fileSize) {
@@ -109,7 +114,8 @@ void UncompressedFile::write(const char * s, std::streamsize n) {
     tellgChanged.wait(lock, [&] {
         return
         m_abort ||
-        ((m_tellp - m_tellg) < m_bufferSize);
+        ((m_tellp - m_tellg) < m_bufferSize) ||
+        (m_tellp < m_readDemand);
     });
 
     /* write data */
@@ -202,7 +208,8 @@ void UncompressedFile::write(const std::shared_ptr<LogContainer> & logContainer)
     tellgChanged.wait(lock, [&] {
         return
         m_abort ||
-        ((m_tellp - m_tellg) < m_bufferSize);
+        ((m_tellp - m_tellg) < m_bufferSize) ||
+        (m_tellp < m_readDemand);
     });
 
     /* append logContainer */
